@@ -473,6 +473,13 @@ clientOutput(void *data)
 
 		LOCK(cl->updateMutex);
 
+		if (cl->state == RFB_SHUTDOWN) {
+			/* clientInput sets this under updateMutex before it signals and joins us:
+			   re-check under the same mutex so that its wake-up cannot be lost. */
+			UNLOCK(cl->updateMutex);
+			return THREAD_ROUTINE_RETURN_VALUE;
+		}
+
 		if (sraRgnEmpty(cl->requestedRegion)) {
 			; /* always require a FB Update Request (otherwise can crash.) */
 		} else {
@@ -578,7 +585,12 @@ clientInput(void *data)
 	    /* Reset the pipe */
 	    char buf;
 	    while (read(cl->pipe_notify_client_thread[0], &buf, sizeof(buf)) == sizeof(buf));
-	    continue; /* Go on with loop */
+	    /*
+	      The pipe is only ever written by rfbCloseClient(): this is the request to stop.
+	      Do not rely on cl->state still being RFB_SHUTDOWN, the handshake code running in
+	      this thread may have overwritten it with the next protocol state in the meantime.
+	    */
+	    break;
 	}
 #endif
 
@@ -600,6 +612,7 @@ clientInput(void *data)
 
     /* Get rid of the output thread. */
     LOCK(cl->updateMutex);
+    cl->state = RFB_SHUTDOWN;
     TSIGNAL(cl->updateCond);
     UNLOCK(cl->updateMutex);
     THREAD_JOIN(output_thread);
